@@ -180,6 +180,9 @@ def build(template_path, repo_root):
                 out_lines.extend(kept_attrs.splitlines())
             if d.get("pre"):
                 out_lines.append(indent + d["pre"])
+            if d.get("vis"):
+                sig = d["vis"] + " " + sig.lstrip()
+                edits.append("visibility:" + d["vis"])
             out_lines.extend((indent + sig.lstrip()).splitlines())
             for cl in sections["spec"]:
                 out_lines.append(indent + "    " + cl)
